@@ -148,6 +148,155 @@ let hist_run (init : 'st) (step : 'st -> op -> 'st * out) (disk : 'st -> n list)
            | None -> print_endline ("BAD-OP " ^ l)))
     lines
 
+(* ---------- errmap (C11) ---------- *)
+(* names as the Go side prints them: sentinel variable names, codes.Code.String(), store.ErrorCode.String() *)
+let sentinel_names = [
+  ErrUnknown, "ErrUnknown"; ErrNoFreeSpace, "ErrNoFreeSpace"; ErrNotFound, "ErrNotFound";
+  ErrEmptyKey, "ErrEmptyKey"; ErrHeaderNotFound, "ErrHeaderNotFound"; ErrTxNotFound, "ErrTxNotFound";
+  ErrTxAlreadyExists, "ErrTxAlreadyExists"; ErrTxSerialization, "ErrTxSerialization";
+  ErrEmptyDbPath, "ErrEmptyDbPath"; ErrEmptyRootDirs, "ErrEmptyRootDirs" ]
+let sentinel_of_string (s : string) : sentinel =
+  match List.find_opt (fun (_, n) -> n = s) sentinel_names with
+  | Some (c, _) -> c
+  | None -> failwith ("unknown sentinel " ^ s)
+let string_of_sentinel (c : sentinel) : string = List.assoc c sentinel_names
+let string_of_code (c : code) : string =
+  match c with
+  | Codes_OK -> "OK" | Codes_Canceled -> "Canceled" | Codes_Unknown -> "Unknown"
+  | Codes_InvalidArgument -> "InvalidArgument" | Codes_DeadlineExceeded -> "DeadlineExceeded"
+  | Codes_NotFound -> "NotFound" | Codes_AlreadyExists -> "AlreadyExists"
+  | Codes_PermissionDenied -> "PermissionDenied" | Codes_ResourceExhausted -> "ResourceExhausted"
+  | Codes_FailedPrecondition -> "FailedPrecondition" | Codes_Aborted -> "Aborted"
+  | Codes_OutOfRange -> "OutOfRange" | Codes_Unimplemented -> "Unimplemented" | Codes_Internal -> "Internal"
+  | Codes_Unavailable -> "Unavailable" | Codes_DataLoss -> "DataLoss" | Codes_Unauthenticated -> "Unauthenticated"
+  | Codes_Other -> "Other"
+let string_of_detail (d : detail option) : string =
+  match d with
+  | None -> "none"
+  | Some ErrorCode_ErrUnknown -> "ErrUnknown" | Some ErrorCode_ErrNoFreeSpace -> "ErrNoFreeSpace"
+  | Some ErrorCode_ErrNotFound -> "ErrNotFound" | Some ErrorCode_ErrEmptyKey -> "ErrEmptyKey"
+  | Some ErrorCode_ErrHeaderNotFound -> "ErrHeaderNotFound" | Some ErrorCode_ErrTxNotFound -> "ErrTxNotFound"
+  | Some ErrorCode_ErrTxAlreadyExists -> "ErrTxAlreadyExists"
+  | Some ErrorCode_ErrTxSerialization -> "ErrTxSerialization" | Some ErrorCode_Other -> "Other"
+let string_of_set (l : sentinel list) : string =
+  if l = [] then "-" else String.concat "," (List.map string_of_sentinel l)
+let string_of_onat (x : nat option) : string =
+  match x with Some n -> string_of_int (int_of_nat n) | None -> "other"
+
+(* prefix notation: L<Sentinel> | O | W <tree> | J<n> <tree>*n *)
+let rec parse_tree (toks : string list) : errv * string list =
+  match toks with
+  | [] -> failwith "tree ends early"
+  | t :: rest ->
+    (match t.[0] with
+     | 'L' -> (Leaf (sentinel_of_string (tail_from t 1)), rest)
+     | 'O' -> (Other, rest)
+     | 'W' -> let (k, r) = parse_tree rest in (Wrap k, r)
+     | 'J' ->
+       let n = int_of_string (tail_from t 1) in
+       let rec kids i r acc =
+         if i = 0 then (List.rev acc, r)
+         else let (k, r') = parse_tree r in kids (i - 1) r' (k :: acc) in
+       let (ks, r) = kids n rest [] in
+       (Join ks, r)
+     | _ -> failwith ("bad tree token " ^ t))
+
+let errmap_case (line : string) : string =
+  match split_ws line with
+  | id :: "e" :: toks ->
+    let (e, rest) = parse_tree toks in
+    if rest <> [] then failwith ("trailing tokens: " ^ line);
+    let r = errmap_run_err e in
+    Printf.sprintf "%s e %s %s in=%s full=%s code=%s" id (string_of_code r.er_code) (string_of_detail r.er_detail)
+      (string_of_set r.er_in) (string_of_set r.er_full) (string_of_set r.er_codeonly)
+  | id :: "primary" :: toks ->
+    let (e, _) = parse_tree toks in
+    id ^ " primary " ^ string_of_sentinel (errmap_run_err e).er_primary
+  | [id; "w"; c; d] ->
+    let dn = if d = "-" then None else Some (nat_of_int (int_of_string d)) in
+    id ^ " w " ^ string_of_set (errmap_run_wire (nat_of_int (int_of_string c)) dn)
+  | [id; "l"; n] ->
+    let (g, b) = errmap_run_level (nat_of_int (int_of_string n)) in
+    Printf.sprintf "%s l %s %s" id (string_of_onat g) (string_of_onat b)
+  | [id; "p"; n] ->
+    let k = int_of_string n in
+    let (m, g) = errmap_run_plevel (if k < 0 || k > 65535 then None (* not a declared number: TxIsoLevel_Other *) else Some (nat_of_int k)) in
+    Printf.sprintf "%s p %s %s" id (string_of_onat m) (string_of_onat g)
+  | _ -> failwith ("bad errmap case: " ^ line)
+
+
+(* ---------- config (C20) ---------- *)
+(* case lines: see harness/config.go *)
+let z_of_string (s : string) : z =
+  let x = Int64.of_string s in
+  if Int64.equal x 0L then Z0
+  else if Int64.compare x 0L > 0 then Zpos (pos_of_i64 x)
+  else Zneg (pos_of_i64 (Int64.neg x))
+let string_of_z (x : z) : string =
+  match x with
+  | Z0 -> "0"
+  | Zpos p -> Printf.sprintf "%Lu" (i64_of_pos p)
+  | Zneg p -> "-" ^ Printf.sprintf "%Lu" (i64_of_pos p)
+
+let cstr (tok : string) : n list =
+  if tok = "" || tok.[0] <> 'x' then failwith ("bad string token " ^ tok)
+  else if String.length tok = 1 then [] else bytes_of_hex (tail_from tok 1)
+let cstr_enc (l : n list) : string = if l = [] then "x" else "x" ^ hex_of_bytes l
+let clist (tok : string) : n list list =
+  if tok = "-" then [] else List.map cstr (String.split_on_char ',' tok)
+let clist_enc (l : n list list) : string =
+  if l = [] then "-" else String.concat "," (List.map cstr_enc l)
+
+let cfile conv (tok : string) =
+  if tok = "-" then FAbsent
+  else if tok.[0] = '!' then FBad
+  else if tok.[0] = '=' then FValue (conv (tail_from tok 1))
+  else failwith ("bad file token " ^ tok)
+let cenv conv (tok : string) =
+  if tok = "-" then EUnset
+  else if tok = "e" then EEmpty
+  else if tok.[0] = '!' then EBad
+  else if tok.[0] = '=' then EValue (conv (tail_from tok 1))
+  else failwith ("bad env token " ^ tok)
+let cenv_str (tok : string) : n list option =
+  if tok = "-" then None
+  else if tok = "e" then Some []
+  else if tok.[0] = '=' then Some (cstr (tail_from tok 1))
+  else failwith ("bad env token for a string setting " ^ tok)
+
+let string_of_validres (v : validres) : string =
+  match v with
+  | VErr VErrEmptyDbPath -> "ErrEmptyDbPath"
+  | VErr VErrEmptyRootDirs -> "ErrEmptyRootDirs"
+  | VOK s -> String.concat "/" ["ok"; cstr_enc s.s_db_path; string_of_n s.s_max_dir_count;
+                                clist_enc s.s_root_dirs; string_of_z s.s_gc_period]
+
+let config_case (line : string) : string =
+  match split_ws line with
+  | [id; "P"; g; mode; f0; f1; f2; f3; f4; f5; f6; e0; e1; e2; e3; e4; e5; e6] ->
+    let fc = { f_port = cfile z_of_string f0; f_db = cfile cstr f1; f_dc = cfile n_of_string f2;
+               f_rd = cfile clist f3; f_gc = cfile z_of_string f4; f_nw = cfile z_of_string f5;
+               f_sd = cfile z_of_string f6 } in
+    let fa = (match mode with
+        | "N" -> NoFile | "M" -> MissingFile | "E" -> EmptyFile | "F" -> File fc
+        | _ -> failwith ("bad file mode " ^ mode)) in
+    let ev = { e_port = cenv z_of_string e0; e_db = cenv_str e1; e_dc = cenv n_of_string e2;
+               e_rd = cenv_str e3; e_gc = cenv z_of_string e4; e_nw = cenv z_of_string e5;
+               e_sd = cenv z_of_string e6 } in
+    (match run_parse { i_file = fa; i_env = ev; i_procs = z_of_string g } with
+     | CfgErr -> id ^ " err parse"
+     | CfgOk (c, v) ->
+       Printf.sprintf "%s ok p=%s db=%s dc=%s rd=%s gc=%s nw=%s sd=%s valid=%s" id
+         (string_of_z c.c_port) (cstr_enc c.c_storage.s_db_path) (string_of_n c.c_storage.s_max_dir_count)
+         (clist_enc c.c_storage.s_root_dirs) (string_of_z c.c_storage.s_gc_period)
+         (string_of_z c.c_wpool.w_num_workers) (string_of_z c.c_wpool.w_send_duration)
+         (string_of_validres v))
+  | [id; "V"; db; dc; rd; gc] ->
+    id ^ " valid=" ^ string_of_validres
+      (run_valid { s_db_path = cstr db; s_max_dir_count = n_of_string dc; s_root_dirs = clist rd;
+                   s_gc_period = z_of_string gc })
+  | _ -> failwith ("bad config case: " ^ line)
+
 let () =
   let cmd = Sys.argv.(1) in
   let lines = read_lines Sys.argv.(2) in
@@ -176,6 +325,8 @@ let () =
     | "vlist" -> vlist_case vrun
     | "vlist-spec" -> vlist_case vrun_spec
     | "codec" -> codec_case
+    | "config" -> config_case
+    | "errmap" -> errmap_case
     | _ -> failwith ("unknown command " ^ cmd)
   in
   List.iter (fun l -> if String.trim l <> "" && l.[0] <> '#' then print_endline (f l)) lines
